@@ -138,6 +138,6 @@ func TestPropAgreementN4F1(t *testing.T) {
 // TestPropAgreementWeighted: 1..7 validators, drawn voting powers (total = 0,1,2 mod 3), any set of Byzantine
 // validators holding less than a third of the power (possibly a majority by head count), powers may change per height.
 func TestPropAgreementWeighted(t *testing.T) {
-	stats.Check(t, stats.Budget{Quick: 17000, Thorough: 250000}, "n in 1..7, drawn powers, Byzantine power < N/3 (often at the limit); "+simRule,
+	stats.Check(t, stats.Budget{Quick: 17000, Thorough: 250000}, "n in 1..7 (a fifth: 8, 10, 13, 16), drawn powers, Byzantine power < N/3 (often at the limit); "+simRule,
 		func(rt *rapid.T, c *stats.Case) { runSim(rt, c, false) })
 }
